@@ -85,7 +85,7 @@ func (srv *Srv) auth(req *SrvReq) {
 
 func (srv *Srv) authPost(req *SrvReq) {
 	if req.Rc != nil && req.Rc.Type == Rauth {
-		req.Afid.IncRef()
+		req.Afid.bind()
 	}
 }
 
@@ -139,7 +139,7 @@ func (srv *Srv) attach(req *SrvReq) {
 func (srv *Srv) attachPost(req *SrvReq) {
 	if req.Rc != nil && req.Rc.Type == Rattach {
 		req.Fid.Type = req.Rc.Qid.Type
-		req.Fid.IncRef()
+		req.Fid.bind()
 	}
 }
 
@@ -241,7 +241,7 @@ func (srv *Srv) walkPost(req *SrvReq) {
 	}
 
 	if req.Newfid.fid != req.Fid.fid {
-		req.Newfid.IncRef()
+		req.Newfid.bind()
 	}
 }
 
@@ -405,7 +405,7 @@ func (srv *Srv) clunk(req *SrvReq) {
 
 func (srv *Srv) clunkPost(req *SrvReq) {
 	if req.Rc != nil && req.Rc.Type == Rclunk && req.Fid != nil {
-		req.Fid.DecRef()
+		req.Fid.unbind()
 	}
 }
 
@@ -413,7 +413,7 @@ func (srv *Srv) remove(req *SrvReq) { (req.Conn.Srv.ops).(SrvReqOps).Remove(req)
 
 func (srv *Srv) removePost(req *SrvReq) {
 	if req.Rc != nil && req.Fid != nil {
-		req.Fid.DecRef()
+		req.Fid.unbind()
 	}
 }
 
